@@ -26,7 +26,10 @@ CLAIMED = {
          'the wrapper mirror is tied to gin.config by generated calls with markers in every position; an independent Python statement of '
          'C10 (exact missing list parsed from the error, body not run, marker never received) is evaluated on the implementation.',
          BASE + 'Modelled, not verified: inspect signatures, Python argument binding; the missing list is parsed from the error message.'),
- 'C11': ('Theorems parseKey_sound / bind_sound / bind_reject_unchanged / finalize_hooks_validated / method_needs_class hold for every '
+ 'C11': ('Under dynamic registration (Props/C11b.lean): dyn_excluded_param_rejected / dyn_accepted_is_bindable / dyn_block_member_is_binding — '
+         'the bindable parameters are fixed by the registration, in every context and after every history; tied to gin.config by C19-generator '
+         'files over objects registered from Python with allow / deny lists. '
+         'Theorems parseKey_sound / bind_sound / bind_reject_unchanged / finalize_hooks_validated / method_needs_class hold for every '
          'registry, key spelling and state; every binding path of the mirror goes through parseKey; the mirror is tied to gin.config by '
          'generated binding attempts of every validity class through tuple / list / string keys, config text, blocks and finalize hooks, '
          'with the whole store observed after each; an independent Python reference of the validity rule judges the implementation.',
@@ -64,14 +67,19 @@ CLAIMED = {
          'fresh-interpreter parse of the flattened prefix. D17 is a recorded known finding.',
          BASE + 'The tokenizer and parser proper are outside this model (they are C02/C03); location chains are read from the '
          'exception message; statements rendered one per line.'),
- 'C17': ('Theorems proxy_reads_agree / fallback_agrees_off_slots / fallback_shadows_slots / fallback_loses_args about the attribute-lookup '
-         'protocol of the exception proxy (data descriptors of the type, instance dict, __getattr__); the real code is run on every '
-         'exception class of `builtins` that can be instantiated from a constructor-argument table (enumerated completely, incl. '
-         'exception groups and errno-selected OSError subclasses) and on user classes with required __init__/__new__ arguments, slots, '
-         'custom __str__ and properties, raised at depth 1-3 of configurable calls and during reference evaluation: class, catchability, '
-         'args, every public attribute, traceback and message suffix are compared with the original.',
-         BASE + 'Partial (thin model): class creation, C-level slots, with_traceback are CPython\'s; the model fixes only the lookup order; '
-         'everything observable is checked on the real code.'),
+ 'C17': ('Theorems of Props/C17b.lean over the model of the whole call path (Gin/ExcChain.lean), by induction over its depth: '
+         'non_exception_untouched, unbuildable_keeps_original, class_kept (every except clause that catches the original catches what '
+         'arrives), attrs_agree (every public attribute reads as on the original), message_extended (text = original text + one message '
+         'per configurable, innermost first, nothing dropped or repeated) / message_untouched / message_names / hint_only_for_type_error, '
+         'one_proxy_per_level, traceback_kept; plus proxy_reads_agree / fallback_agrees_off_slots / fallback_shadows_slots / '
+         'fallback_loses_args about the attribute-lookup protocol. The real code is run on every exception class of `builtins` that can be '
+         'instantiated from a constructor-argument table (enumerated completely, incl. exception groups and errno-selected OSError '
+         'subclasses) and on user classes with required __init__/__new__ arguments, slots, custom __str__ and properties, raised at depth '
+         '1-3 of configurable calls, during reference evaluation, inside a singleton constructor and on random call paths of depth 2-9 '
+         '(nested scopes, Gin-bound and caller-supplied parameters): which object arrives, its exact text and its user traceback frames '
+         'are compared with the model; class, catchability, args and every public attribute with the original.',
+         BASE + 'Modelled, not verified: class creation, C-level slots, with_traceback are CPython\'s; whether a bare instance of a '
+         'subclass can be made is measured per class by the harness and handed to the model; attribute values and repr() texts are opaque.'),
  'C18': ('Theorems locked_constructs_at_most_once (the locked singleton_value at the granularity of its shared accesses: at most one '
          'construction under every schedule of any number of threads, by an invariant over all reachable states) / singleton_none_is_cached / singleton_stable / singleton_first_use / singletonUse_preserves / uses_return_cached (every history of uses from any '
          'threads) / singleton_cleared / operative_updates_commute, plus kernel-checked witnesses unlocked_race_exists and '
@@ -130,7 +138,8 @@ CLAIMED = {
  'C06': ('Theorems parse_roundtrip / parse_roundtrip_reachable (the statements the text spells, parsed into the cleared configuration, '
          'restore exactly the representable bindings: for every configuration reachable by binding) / roundtrip_reachable / '
          'config_str_roundtrip / printed_resolves (the printed name resolves back, class kept for methods) / imports_order_independent '
-         '(the import section is a function of the set of recorded statements) / emit_order_independent (permutation invariance: two stores with the same bindings made in any order emit the same '
+         '(the import section is a function of the set of recorded statements) / requirements_order_independent (… and of the set of '
+         'configurables config_str has to import itself: any order of making the bindings gives the same names) / emit_order_independent (permutation invariance: two stores with the same bindings made in any order emit the same '
          'document; insertion sort yields the unique sorted permutation, keyLe is a total preorder whose ties are equal sort keys) / '
          'emit_only_representable / emit_macros_representable / emit_sections_from_store / emit_params_complete / mem_sortBy / '
          'length_sortBy about the structural mirror of _config_str (which sections and bindings are printed, under which minimal '
